@@ -370,6 +370,12 @@ class BuiltinMixin:
         o, name = args[0], args[1]
         if not isinstance(name, StrV):
             raise Unsupported("getattr with non-literal name")
+        if isinstance(o, Opt):
+            if self.feasible(st.pc, o.isnone):
+                yield from self.bi_getattr(st.assume(o.isnone), [NONE] + list(args[1:]), kwargs)
+            if self.feasible(st.pc, z3.Not(o.isnone)):
+                yield from self.bi_getattr(st.assume(z3.Not(o.isnone)), [o.val] + list(args[1:]), kwargs)
+            return
         if (is_term(o) or isinstance(o, (NoneV, StrV, BytesV, TupleV))) and name.s not in dir(0) + dir("") + dir(b"") + dir(()):
             # numbers, strings, bytes, tuples, None have no such attribute
             if len(args) > 2:
